@@ -98,6 +98,7 @@ type liqWorld struct {
 	orders []liqtypes.Order           // orders ever placed (for cancels)
 	users  map[int]bool
 	life    *lifeScn // the order-life scenario of this case (nil: none)
+	huntHit *[4]uint64 // app, pair, order id, owner of the order the directed search placed (mode C05F)
 	poolPct int      // share of pool operations
 }
 
@@ -866,8 +867,23 @@ func liqDrive(t *testing.T, mode string) {
 			if w.life != nil {
 				w.lifeStep(g)
 			}
-			if hunt && b >= 1 && w.huntStep(g) {
-				nops = 0
+			if hunt && b >= 1 {
+				// one hit per case; afterwards the blocks only pass (and the owner tries to cancel): a stalled app
+				// stays stalled with an unchanged book, past the expiry of the order
+				if w.huntHit == nil {
+					if app, pair, id, owner, ok := w.huntStep(g); ok {
+						w.huntHit = &[4]uint64{app, pair, id, uint64(owner)}
+					}
+					if w.huntHit != nil {
+						nops = 0
+					}
+				} else {
+					nops = 0
+					h := w.huntHit
+					if _, live := w.k.GetOrder(w.ctx, h[0], h[1], h[2]); live && g.chance(60) {
+						w.opCancel(h[0], int(h[3]), h[1], h[2])
+					}
+				}
 			}
 			for i := 0; i < nops; i++ {
 				w.genOp(g, c04)
